@@ -309,12 +309,18 @@ Proof.
   - destruct Hc as [Hs|[Hi|[Hf|Hb]]].
     + rewrite (str_ok_is_str col Hs). cbn [dstr1 d_kind d_shape d_str]. apply map_str_dec. exact Hs.
     + destruct col as [|v t]; [congruence|]. pose proof Hi as Hi'. cbn [forallb] in Hi. apply andb_true_iff in Hi.
-      destruct Hi as [Hv Ht]. destruct v; try discriminate. cbn [forallb is_str andb]. rewrite Hi'.
+      destruct Hi as [Hv Ht]. destruct v; try discriminate.
+      replace (forallb is_str (MInt z :: t)) with false by reflexivity. rewrite Hi'.
       cbn [dnum d_kind d_shape d_num]. rewrite map_num_int by exact Hi'. reflexivity.
     + destruct col as [|v t]; [congruence|]. pose proof Hf as Hf'. cbn [forallb] in Hf. apply andb_true_iff in Hf.
-      destruct Hf as [Hv Ht]. destruct v; try discriminate. cbn [forallb is_str is_int andb]. rewrite Hf'.
+      destruct Hf as [Hv Ht]. destruct v; try discriminate.
+      replace (forallb is_str (MFloat bits :: t)) with false by reflexivity.
+      replace (forallb is_int (MFloat bits :: t)) with false by reflexivity. rewrite Hf'.
       cbn [dnum d_kind d_shape d_num]. rewrite map_num_float by exact Hf'. reflexivity.
     + destruct col as [|v t]; [congruence|]. pose proof Hb as Hb'. cbn [forallb] in Hb. apply andb_true_iff in Hb.
-      destruct Hb as [Hv Ht]. destruct v; try discriminate. cbn [forallb is_str is_int is_float andb].
+      destruct Hb as [Hv Ht]. destruct v; try discriminate.
+      replace (forallb is_str (MBool b :: t)) with false by reflexivity.
+      replace (forallb is_int (MBool b :: t)) with false by reflexivity.
+      replace (forallb is_float (MBool b :: t)) with false by reflexivity.
       cbn [dnum d_kind d_shape d_num]. rewrite map_num_bool by exact Hb'. reflexivity.
 Qed.
